@@ -662,7 +662,7 @@ func c12Diff(p *Prog, r *Report) {
 			wantN[x]++
 		}
 		for x, c := range got {
-			if _, audited := wantN[x]; !audited && c > 0 {
+			if _, audited := wantN[x]; !audited && c > 0 && !subsumedDecision(x, wantN, got) {
 				r.Fail(rule, key+":new:"+short(x, 140), p.Pos(fn.Pos()), "a decision that leaves the current element out of the result is not among the audited ones: "+x)
 			} else {
 				r.OK(rule, key+":"+short(x, 140), p.Pos(fn.Pos()), "audited omission")
